@@ -166,6 +166,9 @@ class Gen:
                                 for _ in range(self.draw(st.integers(2, 3))))
                 conds = conds.replace("% ", "% 2 == ")
                 elt = "%s %s %s" % (tgt, self.pick(CMP_OPS), self.t_int(0))
+                if self.draw(st.integers(0, 3)) == 0:
+                    self.features.add("all-nonbool-element")
+                    elt = self.pick(["%s", "(%s - 1)", "(%s %% 3)"]) % tgt
             finally:
                 self.targets = saved
             return "all(%s for %s in %s%s)" % (elt, tgt, it, conds)
@@ -177,11 +180,18 @@ class Gen:
             self.features.add("all-any")
             tgt = self.pick(self.free_names(["v", "u", "q"]))
             its = "[%s]" % ", ".join(self.expr("ilist", depth - 1) for _ in range(self.draw(st.integers(1, 3))))
+            if self.draw(st.integers(0, 2)) == 0:
+                # the element is judged by its truth value, it is not a bool itself
+                self.features.add("all-nonbool-element")
+                return "all(len(%s) for %s in %s)" % (tgt, tgt, its)
             return "all(len(%s) %s %s for %s in %s)" % (tgt, self.pick(["<", ">", "!="]), self.expr("int", 0), tgt, its)
         if k == 14:
             self.features.add("all-any")
             tgt = self.pick(self.free_names(["v", "u", "q"]))
             its = "[%s]" % ", ".join(self.expr("str", depth - 1) for _ in range(self.draw(st.integers(1, 3))))
+            if self.draw(st.integers(0, 2)) == 0:
+                self.features.add("all-nonbool-element")
+                return "all(%s for %s in %s)" % (self.pick(["%s", "%s.strip()", "(%s or None)"]) % tgt, tgt, its)
             return "all(%s %s %s for %s in %s)" % (tgt, self.pick(["!=", "<", "=="]), self.expr("str", 0), tgt, its)
         if k <= 1:
             n = self.draw(st.integers(1, 3))
@@ -402,6 +412,8 @@ GUARDED = [
     ("x > 0 and xs[x] == {k}", ["x", "xs"]),
     ("1 < n <= len(xs) and xs[n - 1] > {k}", ["n", "xs"]),
     ("all(y > {k} for y in xs) and xs and xs[0] > 100", ["xs"]),
+    ("all(y for y in xs) and len(xs) > {k} + 100", ["xs"]),
+    ("all(c.strip() for c in zs) and len(zs) > {k} + 100", ["zs"]),
     ("(n and 12 // n) or xs[n] > {k}", ["n", "xs"]),
     ("ident(n != 0 and 10 // n > {k})", ["n"]),
     ("ident(xs and xs[0]) is None", ["xs"]),
